@@ -15,6 +15,8 @@ VARIABLES l,       \* next line of the trace
 
 Incl1 == {<<0>>, <<1>>, <<2>>}
 Incl2 == {<<a, b>> : a \in 0..2, b \in 0..2}
+\* two outpoints with one spender each: the independent transactions 1 and 3
+Incl4 == {<<a, b>> : a \in 0..1, b \in 0..1}
 
 Trace == ndJsonDeserialize("trace.ndjson")
 Last == Trace[l - 1]
